@@ -200,13 +200,131 @@ class _LoadNormaliser(ast.NodeTransformer):
         return node
 
 
+_TERMINATORS = (ast.Return, ast.Raise, ast.Continue, ast.Break)
+
+
+def _terminates(body) -> bool:
+    return bool(body) and isinstance(body[-1], _TERMINATORS)
+
+
+def _negated(test):
+    t, flipped = _positive(test)
+    if flipped:
+        return t
+    if isinstance(test, ast.Compare) and len(test.ops) == 1 and type(test.ops[0]) in (ast.Eq, ast.Is, ast.In):
+        inv = {ast.Eq: ast.NotEq, ast.Is: ast.IsNot, ast.In: ast.NotIn}[type(test.ops[0])]
+        return ast.copy_location(ast.Compare(left=test.left, ops=[inv()], comparators=test.comparators), test)
+    return ast.copy_location(ast.UnaryOp(op=ast.Not(), operand=test), test)
+
+
+def _flatten_terminating_ifs(tree):
+    """An `if` whose one arm always leaves the block (return / raise / continue / break) needs no `else`:
+         if c: ..; return A          if c: ..; return A
+         else: REST             ->   REST
+    and when only the else arm leaves, the arms are swapped first (test negated).  `elif` chains whose arms all leave become a
+    sequence of guards.  Behaviour-preserving; makes guard-clause style and if/else style one form."""
+    def size(block):
+        return sum(1 for st in block for _ in ast.walk(st))
+
+    def sub(s_):
+        for fld in ("body", "orelse", "finalbody"):
+            b = getattr(s_, fld, None)
+            if isinstance(b, list) and b and isinstance(b[0], ast.stmt) and not (isinstance(s_, ast.If) and fld in ("body", "orelse")):
+                setattr(s_, fld, fix_block(b))
+        for h in getattr(s_, "handlers", []) or []:
+            h.body = fix_block(h.body)
+
+    def fix_block(stmts):
+        """`if c: B else: E` followed by R is `if c: B else: E + R` whenever B always leaves the block (and vice versa); among the
+        equivalent guard-clause spellings one is chosen: the guard is the arm that leaves; if both leave, the arm that raises, else the
+        smaller arm, else the positive test"""
+        stmts = list(stmts)
+        if not stmts:
+            return []
+        s_, rest = stmts[0], stmts[1:]
+        sub(s_)
+        if not isinstance(s_, ast.If):
+            return [s_] + fix_block(rest)
+        B = fix_block(s_.body)
+        E = fix_block(s_.orelse)
+        if _terminates(B):
+            other = E + rest                      # what runs when the test is false
+            other_fixed = fix_block(other)
+            if _terminates(other_fixed) and other:
+                rb, ro = isinstance(B[-1], ast.Raise), isinstance(other_fixed[-1], ast.Raise)
+                if rb != ro:
+                    swap = ro
+                else:
+                    nb, no = size(B), size(other_fixed)
+                    swap = (no < nb) if nb != no else _positive(s_.test)[1]
+                if swap:
+                    s_.test, s_.body, s_.orelse = _negated(s_.test), other_fixed, []
+                    return [s_] + B
+            s_.body, s_.orelse = B, []
+            return [s_] + other_fixed
+        if E and _terminates(E):
+            s_.test, s_.body, s_.orelse = _negated(s_.test), E, []
+            return [s_] + fix_block(B + rest)
+        s_.body, s_.orelse = B, E
+        return [s_] + fix_block(rest)
+    for n in ast.walk(tree):
+        if isinstance(n, (ast.FunctionDef, ast.AsyncFunctionDef)):
+            n.body = fix_block(n.body)
+    return tree
+
+
+def _inline_return_temps(tree):
+    """`X = <expr>` immediately followed by `return X`, X bound and read nowhere else in the function  ->  `return <expr>`
+    (the position of the assignment is kept).  Behaviour-preserving; makes `res = f(x); return res` and `return f(x)` one form."""
+    for fn in [n for n in ast.walk(tree) if isinstance(n, (ast.FunctionDef, ast.AsyncFunctionDef))]:
+        # the value assigned is dead after the return unless something that still runs can read it: a nested scope that
+        # captured the name, or a `finally` block
+        keep: set = set()
+        for x in ast.walk(fn):
+            if x is not fn and isinstance(x, (ast.FunctionDef, ast.AsyncFunctionDef, ast.Lambda)):
+                a_ = x.args
+                bound = {p_.arg for p_ in a_.posonlyargs + a_.args + a_.kwonlyargs} | ({a_.vararg.arg} if a_.vararg else set()) | ({a_.kwarg.arg} if a_.kwarg else set())
+                nonl = {nm for y in ast.walk(x) if isinstance(y, ast.Nonlocal) for nm in y.names}
+                bound |= {y.id for y in ast.walk(x) if isinstance(y, ast.Name) and isinstance(y.ctx, ast.Store)} - nonl
+                keep |= {y.id for y in ast.walk(x) if isinstance(y, ast.Name) and y.id not in bound}      # captured from the enclosing scope
+            elif isinstance(x, ast.Try):
+                keep |= {y.id for st_ in x.finalbody for y in ast.walk(st_) if isinstance(y, ast.Name)}
+            elif isinstance(x, (ast.Global, ast.Nonlocal)):
+                keep |= set(x.names)
+        for blk in ast.walk(fn):
+            for fld in ("body", "orelse", "finalbody"):
+                b = getattr(blk, fld, None)
+                if not (isinstance(b, list) and len(b) >= 2 and isinstance(b[0], ast.stmt)):
+                    continue
+                i = 0
+                out = []
+                while i < len(b):
+                    s_ = b[i]
+                    nxt = b[i + 1] if i + 1 < len(b) else None
+                    tgt = s_.targets[0] if isinstance(s_, ast.Assign) and len(s_.targets) == 1 else (s_.target if isinstance(s_, ast.AnnAssign) and s_.value is not None else None)
+                    if isinstance(tgt, ast.Name) and isinstance(nxt, ast.Return) and isinstance(nxt.value, ast.Name) and nxt.value.id == tgt.id \
+                            and tgt.id not in keep:
+                        out.append(ast.copy_location(ast.Return(value=s_.value), s_))
+                        i += 2
+                        continue
+                    out.append(s_)
+                    i += 1
+                setattr(blk, fld, out)
+    return tree
+
+
+def normal_form(tree):
+    """the load-time normal form of a module (see DESIGN 2.1b)"""
+    return _inline_return_temps(_flatten_terminating_ifs(_LoadNormaliser().visit(tree)))
+
+
 class Module:
     def __init__(self, path, relpath, modname, source):
         self.path = path
         self.relpath = relpath
         self.modname = modname
         self.source = source
-        self.tree = _LoadNormaliser().visit(ast.parse(source, filename=path))
+        self.tree = normal_form(ast.parse(source, filename=path))
         from . import alpha
         self.alpha_renamed = alpha.normalise(self.tree, relpath)   # locals renamed back to their reference names
         self.functions: Dict[str, FuncInfo] = {}
@@ -351,10 +469,178 @@ def path_conditions(node) -> List[Tuple[str, bool]]:
     return out
 
 
+def effective_conditions(node) -> List[Tuple[str, bool]]:
+    """path_conditions plus the negated tests of every earlier sibling guard that always leaves its block
+    (`if c: ...; return` before the statement, in the statement's block or in any enclosing block): the conditions that
+    certainly hold when `node` executes, whatever mix of guard clauses and if/else the source uses."""
+    out = list(path_conditions(node))
+    child = enclosing_stmt(node) if not isinstance(node, ast.stmt) else node
+    while child is not None:
+        par = parent(child)
+        if par is None:
+            break
+        for fld in ("body", "orelse", "finalbody"):
+            blk = getattr(par, fld, None)
+            if isinstance(blk, list) and any(child is b for b in blk):
+                for b in blk:
+                    if b is child:
+                        break
+                    if isinstance(b, ast.If) and not b.orelse and _terminates(b.body):
+                        t, flipped = _positive(b.test)
+                        out.append((ast.unparse(t), flipped))       # the guard's test was false: t is `flipped`
+        if isinstance(par, (ast.FunctionDef, ast.AsyncFunctionDef, ast.Lambda, ast.ClassDef, ast.Module)):
+            break
+        child = par
+    return out
+
+
+def case_split(stmts, test: str):
+    """Find, in a statement list, the `if` that decides `test` (either polarity, with an else arm or as a guard clause that leaves
+    the block) and return (statements run when test holds, statements run when it does not, statements before, the if node) -
+    each case being its arm followed by the rest of the block unless the arm always leaves.  None when no such `if` exists."""
+    want, wflip = _positive(ast.parse(test, mode="eval").body)
+    for i, s_ in enumerate(stmts):
+        if isinstance(s_, ast.If):
+            tt, fl = _positive(s_.test)
+            if ast.unparse(tt) != ast.unparse(want):
+                continue
+            rest = list(stmts[i + 1:])
+            arm_t, arm_f = (s_.orelse, s_.body) if fl else (s_.body, s_.orelse)      # arm where `tt` is true / false
+            a = list(arm_t) + ([] if _terminates(arm_t) else rest)
+            b = list(arm_f) + ([] if _terminates(arm_f) else rest)
+            return ((b, a) if wflip else (a, b)) + (list(stmts[:i]), s_)
+    return None
+
+
+def guard_chain(stmts, start_pred=None):
+    """A multi-way decision written as an if/elif/else chain, as a sequence of guard clauses that leave the block, or any mix:
+    [(test, arm statements), ..., (None, default statements)].  Statements before the first `if` (or before the first `if`
+    accepted by start_pred) are skipped."""
+    out = []
+    i = 0
+    n = len(stmts)
+    while i < n:
+        s_ = stmts[i]
+        if isinstance(s_, ast.If) and (out or start_pred is None or start_pred(s_)):
+            node = s_
+            while True:
+                out.append((node.test, node.body))
+                if len(node.orelse) == 1 and isinstance(node.orelse[0], ast.If):
+                    node = node.orelse[0]
+                    continue
+                break
+            if node.orelse:
+                out.append((None, node.orelse))
+                return out
+            if _terminates(node.body):
+                i += 1
+                continue
+            out.append((None, list(stmts[i + 1:])))
+            return out
+        if out:
+            out.append((None, list(stmts[i:])))
+            return out
+        i += 1
+    if out:
+        out.append((None, []))
+    return out
+
+
+OTHER_MODE = "<any other value>"
+
+
+def mode_paths(stmts, var: str, extra_values=()):
+    """Case analysis of a statement list over the values of a string-valued selector `var`: for every string the code compares
+    `var` with (and for `extra_values`, None and a value that matches nothing) the statements that run for that value and how the
+    run ends ('raise' / 'return' / 'fall').  Tests are evaluated when they consist only of comparisons of `var` with string
+    constants (==, !=, in, not in, is None, is not None, and / or / not); any other `if` is kept as an opaque statement.
+    The result is the same for an if/elif/else chain, for guard clauses and for negated guards."""
+    consts = set(extra_values)
+    for s_ in stmts:
+        for c in ast.walk(s_):
+            if isinstance(c, ast.Compare) and isinstance(c.left, ast.Name) and c.left.id == var:
+                for r in c.comparators:
+                    if isinstance(r, ast.Constant) and isinstance(r.value, str):
+                        consts.add(r.value)
+                    elif isinstance(r, (ast.Tuple, ast.List, ast.Set)):
+                        consts |= {e.value for e in r.elts if isinstance(e, ast.Constant) and isinstance(e.value, str)}
+
+    class _Unknown(Exception):
+        pass
+
+    def ev(e, val):
+        if isinstance(e, ast.BoolOp):
+            vs = [ev(v, val) for v in e.values]
+            return all(vs) if isinstance(e.op, ast.And) else any(vs)
+        if isinstance(e, ast.UnaryOp) and isinstance(e.op, ast.Not):
+            return not ev(e.operand, val)
+        if isinstance(e, ast.Compare) and len(e.ops) == 1 and isinstance(e.left, ast.Name) and e.left.id == var:
+            op, r = e.ops[0], e.comparators[0]
+            if isinstance(r, ast.Constant) and (isinstance(r.value, str) or r.value is None):
+                if isinstance(op, (ast.Eq, ast.Is)):
+                    return val == r.value
+                if isinstance(op, (ast.NotEq, ast.IsNot)):
+                    return val != r.value
+            if isinstance(r, (ast.Tuple, ast.List, ast.Set)) and isinstance(op, (ast.In, ast.NotIn)) and all(isinstance(x, ast.Constant) for x in r.elts):
+                res = val in [x.value for x in r.elts]
+                return res if isinstance(op, ast.In) else not res
+        raise _Unknown()
+
+    def run(block, val, out):
+        for s_ in block:
+            if isinstance(s_, ast.If):
+                try:
+                    t = ev(s_.test, val)
+                except _Unknown:
+                    out.append(s_)
+                    continue
+                end = run(s_.body if t else s_.orelse, val, out)
+                if end != "fall":
+                    return end
+                continue
+            out.append(s_)
+            if isinstance(s_, ast.Raise):
+                return "raise"
+            if isinstance(s_, ast.Return):
+                return "return"
+        return "fall"
+    res = {}
+    for val in sorted(consts) + [None, OTHER_MODE]:
+        out = []
+        end = run(stmts, val, out)
+        res[val] = (out, end)
+    return res
+
+
+def decision_steps(stmts):
+    """A multi-way decision in load-time normal form (guards that leave the block, then a tail) as a flat list of steps:
+         ("when", test, arm)      - `if test: arm` where the arm leaves by return / break / continue
+         ("require", test, arm)   - `if not test: raise ..`: everything after it runs only when `test` holds (arm = the raising arm)
+         ("do", None, [stmt])     - any other statement of the block, in order
+    An if/elif/else chain that was not flattened (arms that do not leave) is expanded the same way: each arm is a "when",
+    its else arm follows as further steps."""
+    out = []
+
+    def walk(block):
+        for s_ in block:
+            if isinstance(s_, ast.If):
+                leaves = _terminates(s_.body)
+                if leaves and not s_.orelse and isinstance(s_.body[-1], ast.Raise):
+                    out.append(("require", _negated(s_.test), s_.body))
+                    continue
+                if leaves or s_.orelse:
+                    out.append(("when", s_.test, s_.body))
+                    walk(s_.orelse)
+                    continue
+            out.append(("do", None, [s_]))
+    walk(stmts)
+    return out
+
+
 def under(node, test: str, value: bool = True) -> bool:
     """is `node` on the arm where `test` (positive or negative spelling) has truth `value`?"""
     t, flipped = _positive(ast.parse(test, mode="eval").body)
-    return (ast.unparse(t), value != flipped) in path_conditions(node)
+    return (ast.unparse(t), value != flipped) in effective_conditions(node)
 
 
 def enclosing_stmt(node) -> ast.AST:
